@@ -2,7 +2,7 @@
 (* Family "badfrom": LoadRaw (corrupted object) ; FreshObj ; CopyFrom.  Serves C06 (CopyFrom part). *)
 EXTENDS Shapes, TLC, Json
 CONSTANTS MCDeep, MCLong
-VARIABLES sh, M, obj, tf, dg, pn, pc, hist, viol, aux
+VARIABLES sh, M, Mi, obj, tf, dg, pn, pc, hist, viol, aux
 MCShapes == AllSessionShapes
 MCScript == IF MCLong THEN <<"LoadRaw", "FreshObj", "CopyFrom">> ELSE <<"LoadRaw", "FreshObj", "CopyFrom">>
 MCProps == {"C06"}
